@@ -342,9 +342,9 @@ INTS = {
 }
 ENV_INTS = ["U8", "U16BE", "U16LE", "U32BE", "U32LE", "I8", "I16BE", "I16LE", "I32BE", "I32LE", "U24", "I40", "U64",
             "U8om", "I8neg"]
-ENV_ATOMS = ENV_INTS + ["B1", "B4", "S1", "S3", "SpareL", "BufL", "BufFlex", "FLG", "OptU16", "OptB2", "BFS16L", "BFS24P",
-                        "NEST", "NESTF", "SEQ"]
-TRAILING_ONLY = ("BufFlex", "NESTF", "SEQ")
+ENV_ATOMS = ENV_INTS + ["B1", "B4", "S1", "S3", "SpareL", "BufL", "BufFlex", "FLG", "OptU16", "OptB2", "OptBFS", "OptBFS16L",
+                        "OptS2", "OptNEST", "OptSEQ", "BFS16L", "BFS24P", "NEST", "NESTF", "SEQ"]
+TRAILING_ONLY = ("BufFlex", "NESTF", "SEQ", "OptSEQ")
 
 
 def int_desc(kind, name):
@@ -400,6 +400,22 @@ def atom(kind, i, st):
         if not st.get("flag"):
             return None
         return [{"t": "buf", "n": n, "len": 2, "opt": st["flag"], "kind": kind}]
+    # every field class also occurs with a presence callback (keyed on the nearest earlier flag)
+    if kind in ("OptBFS", "OptBFS16L", "OptS2", "OptNEST", "OptSEQ"):
+        if not st.get("flag"):
+            return None
+        if kind == "OptBFS":
+            d = {"t": "bits", "parts": [["a%d" % i, 3, None], ["b%d" % i, 5, None]]}
+        elif kind == "OptBFS16L":
+            d = {"t": "bits", "order": "lsb", "parts": [["a%d" % i, 6, None], [None, 2, None], ["c%d" % i, 8, 0x5a]]}
+        elif kind == "OptS2":
+            d = {"t": "spare", "n": n, "len": 2, "fill": 0x77}
+        elif kind == "OptNEST":
+            d = {"t": "env", "n": n, "len": 3, "fields": [int_desc("U8", "x"), int_desc("I16LE", "y")]}
+        else:
+            d = {"t": "seq", "n": n, "len": 0, "item": [int_desc("U8", "t"), int_desc("U16BE", "u")]}
+        d.update(opt=st["flag"], kind=kind)
+        return [d]
     if kind == "BFS16L":
         return [{"t": "bits", "order": "lsb", "kind": kind,
                  "parts": [["a%d" % i, 3, None], ["b%d" % i, 9, None], ["c%d" % i, 4, 0b1010]]}]
@@ -533,7 +549,9 @@ def seq_desc(prog):
 
 
 ALIAS_PROGRAMS = ["two-fields", "three-fields", "two-fields-flex", "seq-item-shared", "nested-shared",
-                  "seq-nested-ref", "seq-nested-fix", "seq-in-shared"]
+                  "seq-nested-ref", "seq-nested-fix", "seq-in-shared",
+                  # an optional bit-field set inside a nested envelope / inside a sequence item
+                  "opt-bits-nested-flex", "opt-bits-nested-ref", "opt-bits-seq-item"]
 
 
 def alias_desc(prog):
@@ -580,6 +598,23 @@ def alias_desc(prog):
         return [ld, {"t": "env", "n": "a", "len": 0, "lref": "l", "fields": holder(), "share": "H",
                      "kind": "shared-envelope"},
                 {"t": "env", "n": "b", "len": 0, "fields": holder(), "share": "H", "kind": "shared-envelope"}]
+    if name.startswith("opt-bits"):
+        def flagged(i):
+            return [{"t": "bits", "parts": [["g%d" % i, 1, None], [None, 2, None], ["v%d" % i, 5, None]], "kind": "FLG"},
+                    {"t": "bits", "order": "lsb", "parts": [["a%d" % i, 3, None], ["b%d" % i, 5, None]], "opt": "g%d" % i,
+                     "kind": "OptBFS(nested)"}]
+        if name == "opt-bits-nested-flex":
+            return [int_desc("U8", "pre"), {"t": "env", "n": "n", "len": 0, "fields": flagged(1) + [int_desc("U8", "z")],
+                                           "kind": "nested:flex"}]
+        if name == "opt-bits-nested-ref":
+            ld = int_desc("U8", "l")
+            ld["derive"] = ["enclen", "n"]
+            ld["kind"] = "U8(length)"
+            return [ld, {"t": "env", "n": "n", "len": 0, "lref": "l", "fields": flagged(1), "kind": "nested:ref"},
+                    int_desc("U16BE", "post")]
+        if name == "opt-bits-seq-item":
+            return [int_desc("U8", "pre"), {"t": "seq", "n": "s", "len": 0, "item": flagged(2), "kind": "sequence-of-optional",
+                                           "_full": True}]
     raise HarnessError("alias program %r" % (prog,))
 
 
@@ -658,12 +693,13 @@ def seq_values(f, size):
     return vs if size == 5 else ([[], [epat, emax], [emax, emin, epat]] if size == 3 else [[], [emax, emin, epat]])
 
 
-def slots(descs, size, prefix=()):
-    """[(path, values, opt flag path or None)] - one slot per value the caller supplies"""
+def slots(descs, size, prefix=(), inherited=None):
+    """[(path, values, opt flag path or None)] - one slot per value the caller supplies; the values inside an
+    optional nested envelope depend on that envelope's flag"""
     out = []
     for f in descs:
         t = f["t"]
-        opt = prefix + (f["opt"],) if "opt" in f else None
+        opt = prefix + (f["opt"],) if "opt" in f else inherited
         if t == "int":
             if f.get("hold"):
                 out.append((prefix + (f["n"],), [pattern(8 * f["len"])], opt))
@@ -676,10 +712,24 @@ def slots(descs, size, prefix=()):
                 if name is not None and fixed is None:
                     out.append((prefix + (name,), part_values(bl, size), opt))
         elif t == "env":
-            out += slots(f["fields"], size, prefix + (f["n"],))
+            out += slots(f["fields"], size, prefix + (f["n"],), opt)
         elif t == "seq":
             out.append((prefix + (f["n"],), seq_values(f, size), opt))
     return out
+
+
+def prune_absent(descs, vals):
+    """remove what an absent optional field would hold (nested envelopes: the whole sub-dict)"""
+    for f in descs:
+        if "opt" in f and not vals.get(f["opt"]):
+            if f["t"] == "bits":
+                for name, bl, fixed in f["parts"]:
+                    vals.pop(name, None)
+            elif "n" in f:
+                vals.pop(f["n"], None)
+        elif f["t"] == "env" and isinstance(vals.get(f["n"]), dict):
+            prune_absent(f["fields"], vals[f["n"]])
+    return vals
 
 
 def set_path(vals, path, v):
@@ -726,7 +776,7 @@ def assignments(descs, size):
                     break
                 del_path(vals, path)
         if not skip:
-            yield vals
+            yield prune_absent(descs, vals)
 
 
 def diagonal(descs, size=5):
@@ -740,6 +790,7 @@ def diagonal(descs, size=5):
         for path, values, opt in sl:
             if opt is not None and not get_path(vals, opt):
                 del_path(vals, path)
+        prune_absent(descs, vals)
         if vals not in out:
             out.append(vals)
     return out
@@ -806,7 +857,7 @@ def extreme_assignments(descs, limit):
         for path, values, opt in sl:
             if opt is not None and not get_path(vals, opt):
                 del_path(vals, path)
-        return vals
+        return prune_absent(descs, vals)
     out = []
     for maxed in [()] + [tuple(drv)] + [(p,) for p in drv]:
         v = build(maxed)
